@@ -15,7 +15,7 @@ from ..sched.core import S, Sched
 
 ID = "C05"
 LEVEL = "exploration"
-RULE = ("Cases: FunctorMap with workers 1..3, chunk size 1..5, 1..3 calls on one instance, inputs of length 0..12 (shorter than the worker "
+RULE = ("Cases: FunctorMap with workers 1..3, chunk size 1..5, 1..3 calls on one instance (each consumed to exhaustion or by taking exactly len(data) results, zip/islice style), inputs of length 0..12 (shorter than the worker "
         "count included) as list / range / generator with drawn delays; mul_p_map with workers 1..3, length 0..10, 1..2 consecutive calls "
         "and a work-queue bound as on machines with 1..16 CPUs; the pipe behind each queue holds an unbounded number of items or (large payloads) only 1..2 undelivered items. pools.Queue and FunRunner.WORK_QUEUE/RESULTS_QUEUE are pipe-queue "
         "stand-ins (per-producer in-flight FIFO, delivery a scheduler step), worker processes are scheduler tasks on fork copies, the "
@@ -95,10 +95,17 @@ def run_sim(case):
                     for ci, call in enumerate(calls):
                         out = []
                         r.outputs.append(out)
-                        for x in fm(PC.P.make_input(call, ci), call.get("chunk", 1)):
-                            out.append(x)
-                            if len(out) > 3 * call["n"] + 10:
-                                break
+                        gen_ = fm(PC.P.make_input(call, ci), call.get("chunk", 1))
+                        if call.get("consume") == "exact" and call["n"] > 0:
+                            # the consumer takes exactly len(data) results (zip / islice style) and never asks for one more
+                            import itertools
+                            out.extend(itertools.islice(gen_, call["n"]))
+                            gen_.close()
+                        else:
+                            for x in gen_:
+                                out.append(x)
+                                if len(out) > 3 * call["n"] + 10:
+                                    break
                         r.leftovers.append([it for it in r.queues[1].pending() if it is not None])
             else:
                 for ci, call in enumerate(calls):
@@ -229,6 +236,7 @@ SMALL = [
     {"kind": "fmap", "workers": 2, "calls": [_c(3), _c(2, 2)], "slow": {"0": 20}, "_drawn": False},
     {"kind": "mulp", "workers": 2, "wq_bound": 2, "calls": [_c(3)], "slow": {"0": 20}, "pipe_cap": 1, "_drawn": False},
     {"kind": "fmap", "workers": 3, "calls": [_c(1), _c(0)], "_drawn": False},
+    {"kind": "fmap", "workers": 1, "calls": [dict(_c(2), consume="exact"), _c(2)], "_drawn": False},
 ]
 
 
@@ -268,7 +276,7 @@ def enumerations(tier):
 
 def strategies(tier):
     big = tier == "thorough"
-    call = PC.call_strategy(max_n=12, late=True).map(lambda c: dict(c, mode="o"))
+    call = st.tuples(PC.call_strategy(max_n=12, late=True), st.sampled_from(["exhaust", "exhaust", "exact"])).map(lambda t: dict(t[0], mode="o", consume=t[1]))
     fmap = st.fixed_dictionaries({"kind": st.just("fmap"), "workers": st.sampled_from([1, 2, 2, 3]),
                                   "calls": st.lists(call, min_size=1, max_size=3),
                                   "slow": st.dictionaries(st.sampled_from(["0", "1", "2", "5"]), st.sampled_from([5, 50, 500]), max_size=2),
